@@ -18,3 +18,9 @@ let desc = { fresh = ek_fresh; decode = ek_decode_into; serialize = Some ek_seri
   next = (fun _ l -> if int_of_z (ek_next l) = 1 then "dot11ie" else "payload"); render_panics = ek_render_panics; of_spec; junk_len = 200 }
 let run id ops out = run_generic desc id ops out
 let registered = Registry.register "Leapolkey" run
+let coq_layer (l : ekey) = Printf.sprintf "(mkEk %s %s %s %s %s %s %s %s %s %s %s %s %s %s %s %s %s %s %s %s %s %s %s)" (coq_zlist l.ek_contents) (coq_zlist l.ek_payload)
+  (coq_z l.ek_kdt) (coq_z l.ek_ver) (coq_z l.ek_kt) (coq_z l.ek_ki) (coq_bool l.ek_install) (coq_bool l.ek_ack) (coq_bool l.ek_micf) (coq_bool l.ek_secure) (coq_bool l.ek_micerr)
+  (coq_bool l.ek_req) (coq_bool l.ek_enc) (coq_bool l.ek_smk) (coq_z l.ek_klen) (coq_z l.ek_rc) (coq_zlist l.ek_nonce) (coq_zlist l.ek_iv) (coq_z l.ek_rsc) (coq_z l.ek_id)
+  (coq_zlist l.ek_mic) (coq_z l.ek_kdl) (coq_zlist l.ek_ekd)
+let registered_coq = Registry.register_coq "Leapolkey" ("From GP Require Import Base LeapolkeyModel.\n",
+  Lsmallutil.to_coq_generic { Lsmallutil.cd = desc; coq_layer; g_dec = "ek_decode_into"; g_fresh = "ek_fresh"; g_ser = "ek_serialize"; g_rp = "ek_render_panics" })
